@@ -272,12 +272,20 @@ impl<T> RcInner<T> {
         #[cfg(feature = "circ_verif")]
         crate::verif::yp(crate::verif::site::IND_LOAD);
         let mut old = State::from_raw(self.state.load(Ordering::SeqCst));
-        while !old.destructed() && old.strong() == 0 {
+        while !old.destructed() {
+            // If the count is zero, add a permission so that the pending destruction re-defers.
+            // Otherwise record the current epoch, so that a recursive destruction reaching this
+            // object does not consider it old enough to be reclaimed immediately.
+            let new = if old.strong() == 0 {
+                old.add_strong(1)
+            } else {
+                old.with_epoch(global_epoch())
+            };
             #[cfg(feature = "circ_verif")]
             crate::verif::yp(crate::verif::site::IND_CAS);
             match self.state.compare_exchange(
                 old.as_raw(),
-                old.add_strong(1).as_raw(),
+                new.as_raw(),
                 Ordering::SeqCst,
                 Ordering::SeqCst,
             ) {
@@ -285,7 +293,7 @@ impl<T> RcInner<T> {
                 Err(curr) => old = State::from_raw(curr),
             }
         }
-        !old.destructed()
+        false
     }
 }
 
